@@ -220,3 +220,20 @@ CHECKS["C18"] = {"pkg": "robust", "test": "(TestC18|FuzzC18.*)", "level": "explo
     "assumptions": ["range walks over more than 2^16 addresses are not generated (legitimately slow, not claimed)",
                     "the scheduler does not bind a pod that is already assigned; unknown pods in CNI requests resolve (the daemon otherwise polls 5 s by design)"],
     "floors": {}}
+
+CHECKS["C19"] = {"pkg": "racesim", "test": "TestC19", "level": "exploration", "race": True,
+    "extra_builds": [{"pkg": "cmd/fakecni", "out": "fakecni"}],
+    "quick": {"checks": 150, "timeout": 1200},
+    "thorough": {"checks": 9600, "shards": 16, "timeout": 3000},
+    "rule": "rapid draws operation mixes for 4-12 free-running goroutines on shared instances, in a binary built with -race: (a) galaxy-ipam: "
+            "Filter, Filter+Bind (one bind per pod), Preempt, pod update/finish/delete events feeding 5 unbind loops, resync and pod-IP sync "
+            "(one goroutine), /v1/ip list and release, pool create/update with pre-allocation, ConfigMap reload (one goroutine), Prometheus "
+            "Gather on the IPAM collector, recording cloud provider; (b) galaxy: concurrent CNI ADD/DEL of multi-network pods through the real "
+            "handler and fake plugins, policy manager add/update/delete/pod events and full syncs on the mutex-protected strict fakes, "
+            "port-mapping open/close/setup/clean/full sync. Oracle: Go race detector reports (GORACE halt_on_error=0), attributed to galaxy "
+            "only when the innermost non-runtime frame of both access stacks lies in /repo (harness frames => inconclusive), de-duplicated "
+            "by the unordered pair of frames; runtime fatal errors (concurrent map access) end the process and are reported too. "
+            "Non-trivial = >=2 distinct entry-point kinds overlapped in time (logical clock around each op); classes list the pairs that overlapped.",
+    "assumptions": ["schedules are the operating system's, not enumerated: the property is sampled", "single-goroutine sources (configmap poll, resync loop, periodic policy sync) are not run twice concurrently",
+                    "the static lock-discipline report named in the property's anchor is a different technique family and is not built"],
+    "floors": {"target_ipam": 0.3, "target_galaxy": 0.15}}
